@@ -181,6 +181,7 @@ func (s *stats) labelList() []string {
 }
 
 type env struct {
+	probeLeak *hx.Failure // set by the registration probe
 	c        Case
 	real     *hx.Node // document ACP, documents owned as the history says
 	full     *hx.Node // every document, all public: helper for cids, filter targets, non-triviality; never the oracle of a read
@@ -219,6 +220,24 @@ type guardACP struct {
 	dac.DocumentACP
 	n       atomic.Int64
 	tripped atomic.Bool
+	// probe, when set, runs at the moment the database hands a new private document to the access
+	// control for registration: the document is not registered yet, so it must not be readable by
+	// anybody else yet either (on the pinned tree the registration happens inside the creating
+	// transaction, before its commit).
+	probe func(docID string)
+}
+
+func (g *guardACP) RegisterDocObject(
+	ctx context.Context,
+	identity acpIdentity.Identity,
+	policyID string,
+	resourceName string,
+	docID string,
+) error {
+	if g.probe != nil {
+		g.probe(docID)
+	}
+	return g.DocumentACP.RegisterDocObject(ctx, identity, policyID, resourceName, docID)
 }
 
 func (g *guardACP) CheckDocAccess(
@@ -479,6 +498,18 @@ func run(c Case) (fail *hx.Failure, st *stats) {
 	}()
 	e.real = boot(c.RelIdx, e.guard)
 	defer closeNode(e.real)
+	e.guard.probe = func(docID string) {
+		// a request without identity, issued while the document is being registered
+		before := e.guard.n.Load()
+		for col := 0; col < 2; col++ {
+			q := fmt.Sprintf(`query { %s(docID: %q) { _docID } }`, colName(col), docID)
+			if r := hx.ExecOn(e.real.Ctx, e.real.DB, q); len(r.Rows(colName(col))) > 0 && e.probeLeak == nil {
+				e.probeLeak = hx.Failf("C10/leak/readable-before-registration", "at the moment document %s is handed to the access control for registration (it is not registered yet) a request without identity already reads it: %s -> %s", docID, q, show(r))
+			}
+		}
+		e.guard.n.Store(before)
+		e.st.add("probe:anonymous-read-during-registration")
+	}
 	e.full = boot(c.RelIdx, nil)
 	defer closeNode(e.full)
 	for col := 0; col < 2; col++ {
@@ -494,6 +525,9 @@ func run(c Case) (fail *hx.Failure, st *stats) {
 			f = e.checkpoint(i, op)
 		} else {
 			f = e.write(op, nil, e.pickAll, false)
+		}
+		if f == nil && e.probeLeak != nil {
+			f = e.probeLeak
 		}
 		if f != nil {
 			f.Msg = fmt.Sprintf("op %d (%s): %s", i, op.K, f.Msg)
